@@ -2086,6 +2086,96 @@ def covered_overrides(a, msg):
     return "C12-F7"
 
 
+# ----------------------------------------------------------------------------
+# gen.choose_name : CreateCompoundFields.choose_name
+# ----------------------------------------------------------------------------
+def local_choose_name(a):
+    from xsdata.codegen.container import ClassContainer
+    from xsdata.codegen.handlers import CreateCompoundFields
+    from xsdata.codegen.models import Attr, AttrType, Class, Status
+    from xsdata.models.config import CompoundFields, GeneratorConfig
+    from xsdata.models.enums import Tag
+
+    cfg = GeneratorConfig()
+    cfg.output.compound_fields = CompoundFields(
+        enabled=True, default_name=a["default_name"], use_substitution_groups=a["use_substitution_groups"],
+        force_default_name=a["force_default_name"], max_name_parts=a["max_name_parts"],
+    )
+    container = ClassContainer(cfg)
+    st = "{http://www.w3.org/2001/XMLSchema}string"
+    target = Class(
+        qname="T", tag=Tag.COMPLEX_TYPE, location="mem", status=Status.FINALIZED,
+        attrs=[Attr(tag=Tag.ELEMENT, name=n, types=[AttrType(qname=st, native=True)]) for n in a["reserved"]],
+    )
+    container.add(target)
+    S.set_shuffle(a.get("seed"))
+    try:
+        return ok(CreateCompoundFields(container).choose_name(target, list(a["names"]), list(a["substitutions"])))
+    finally:
+        S.set_shuffle(None)
+
+
+def impl_choose_name(a):
+    return across_seeds("gen.choose_name", a, local_choose_name)
+
+
+CN_NAMES = ["a", "b", "vehicle", "building", "Zeta", "a_Or_b", "choice", "b_Or_a", "x1"]
+
+
+def gen_choose_name(rng, tier):
+    def case(names, subs, reserved=(), seed=None, **cfg):
+        base = {"default_name": "choice", "use_substitution_groups": False, "force_default_name": False, "max_name_parts": 3}
+        base.update(cfg)
+        return dict(base, names=list(names), substitutions=list(subs), reserved=list(reserved), seed=seed)
+
+    yield case(["a", "b"], [])
+    yield case(["x", "y"], ["vehicle", "building"], use_substitution_groups=True)
+    yield case(["x", "y"], ["building", "vehicle"], use_substitution_groups=True)
+    yield case(["x", "y", "z"], ["vehicle", "building", "vehicle"], use_substitution_groups=True)
+    yield case(["x", "y"], ["vehicle"], use_substitution_groups=True)  # not every attr substituted
+    yield case(["a", "b"], [], ["a_Or_b", "a_Or_b_1"])
+    yield case(["a", "b", "c", "d"], [])
+    yield case(["a", "b"], [], force_default_name=True, default_name="value", reserved=["value"])
+    for i in range(250 if tier == "quick" else 5000):
+        k = rng.randint(1, 5)
+        names = [rng.choice(CN_NAMES) for _ in range(k)]
+        r = rng.random()
+        subs = [rng.choice(CN_NAMES[:5]) for _ in range(k)] if r < 0.5 else ([rng.choice(CN_NAMES[:5])] if r < 0.65 else [])
+        yield dict(
+            case(names, subs, rng.sample(CN_NAMES, rng.randint(0, 3)), rng.randrange(10**6),
+                 use_substitution_groups=rng.random() < 0.6, force_default_name=rng.random() < 0.15,
+                 max_name_parts=rng.choice([1, 2, 3, 3, 5]), default_name=rng.choice(["choice", "value"])),
+            _nw=i % 4 != 0,
+        )
+
+
+def classify_choose_name(a, o):
+    if "err" in o:
+        return "err"
+    by_group = a["use_substitution_groups"] and len(a["names"]) == len(a["substitutions"])
+    default = o["ok"].startswith(a["default_name"]) and "_Or_" not in o["ok"]
+    return f"parts={'groups' if by_group else 'names'},default={'y' if default else 'n'},indexed={'y' if o['ok'][-1:].isdigit() else 'n'}"
+
+
+def check_choose_name(a):
+    """the name is a function of the arguments: the same under every set iteration order, and
+    its parts come in the order of the arguments (document order)"""
+    outs = {json.dumps(local_choose_name(dict(a, seed=sd))) for sd in (None, 1, 2, 3, 4, 5)}
+    if len(outs) > 1:
+        return f"the compound field name depends on the set iteration order: {sorted(outs)}"
+    got = local_choose_name(a)["ok"]
+    parts = a["substitutions"] if a["use_substitution_groups"] and len(a["names"]) == len(a["substitutions"]) else a["names"]
+    uniq = []
+    for x in parts:
+        if x not in uniq:
+            uniq.append(x)
+    if not a["force_default_name"] and len(uniq) <= a["max_name_parts"]:
+        exp = "_Or_".join(uniq)
+        if got != exp and not re.fullmatch(re.escape(exp) + r"_\d+", got):
+            return f"name {got!r}, the parts in document order give {exp!r}"
+    return None
+
+
 IMPLS_LOCAL = {
     "gen.scc": local_scc,
     "gen.toposort": local_toposort,
@@ -2098,6 +2188,7 @@ IMPLS_LOCAL = {
     "gen.circular": local_circular,
     "gen.styles": local_styles,
     "gen.overrides": local_overrides,
+    "gen.choose_name": local_choose_name,
 }
 
 
@@ -2132,6 +2223,9 @@ CORRS = [
     Corr("gen.circular", gen_circular, impl_circular, classify=classify_circular,
          nontrivial=lambda a, o: any(c["types"] for c in a["classes"]),
          describe="DetectCircularReferences.process over real classes in a given visiting order"),
+    Corr("gen.choose_name", gen_choose_name, impl_choose_name, classify=classify_choose_name,
+         nontrivial=lambda a, o: len(a["names"]) > 1,
+         describe="CreateCompoundFields.choose_name on a real class, every CompoundFields option varied, under ShuffledSet"),
     Corr("gen.overrides", gen_overrides, impl_overrides, classify=classify_overrides,
          nontrivial=lambda a, o: len(a["classes"]) > 1,
          describe="ValidateAttributesOverrides through the real container's RESOLVE step, classes visited in a given order"),
@@ -2486,6 +2580,7 @@ ORACLES = [
     Oracle("paths-follow-cwd", gen_cwd, check_cwd),
     Oracle("circular-flags-only-on-cycles", gen_circular, check_circular, from_ops=("gen.circular",)),
     Oracle("styles-container-order-independent", gen_styles, check_styles, from_ops=("gen.styles",)),
+    Oracle("compound-name-document-order", gen_choose_name, check_choose_name, from_ops=("gen.choose_name",)),
     Oracle("overrides-visiting-order-independent", gen_overrides, check_overrides, covered=covered_overrides,
            from_ops=("gen.overrides",)),
     Oracle("cache-history-independent", gen_cache, check_cache, from_ops=("gen.cache",)),
